@@ -4,6 +4,8 @@ import Pds.Model.Cuckoo
 import Pds.Model.Hll
 import Pds.Model.Cms
 import Pds.Model.TDigest
+import Pds.Model.Bloom
+import Pds.Proofs.KernelTie.QfViews
 /-!
 Tie by translation: `clear` and `is_empty` of the cuckoo filter, the reservoir sampler, HyperLogLog, the
 count-min sketch and the t-digest (`is_empty`) as translated from the source are the model's.
@@ -33,5 +35,22 @@ theorem cms_clear_eq (s : Cms.St) (h : s.w * s.d < 2 ^ 64) :
   simp [cms_clear, Cms.clear, KOps.checkedMul, h]
 
 theorem td_is_empty_eq {α : Type} (s : TDigest.St α) : td_is_empty s.centroids s.backlog = TDigest.isEmpty s := rfl
+
+/-- `QuotientFilter::clear` (the three `FixedBitSet::clear`, the refilled remainder vector, `n_elements = 0`) is the
+model's `clear`: the empty table of the same size -/
+theorem qf_clear_eq {N : Nat} (t : Quotient.St N) :
+    qf_clear (occL t) (contL t) (shiftL t) (remL t) t.n =
+      Flow.cont (occL (Quotient.clear t), contL (Quotient.clear t), shiftL (Quotient.clear t), remL (Quotient.clear t),
+        (Quotient.clear t).n) := by
+  have hg : ∀ i : Fin N, (Quotient.clear t).get i = {} := by
+    intro i; simp [Quotient.clear, Quotient.empty, Quotient.St.get]
+  simp only [qf_clear, occL, contL, shiftL, remL, hg, List.length_ofFn]
+  have hrep : ∀ {β : Type} (c : β), List.replicate N c = List.ofFn (fun _ : Fin N => c) := by
+    intro β c
+    apply List.ext_getElem <;> simp
+  simp [Quotient.clear, Quotient.empty, hrep]
+
+theorem bloom_clear_eq (s : Bloom.St) : bloom_clear s.bits.toList = Flow.cont (Bloom.clear s).bits.toList := by
+  simp [bloom_clear, Bloom.clear]
 
 end Pds.KernelTie
